@@ -133,6 +133,38 @@ Theorem noclobber_refuses_existing_regular : forall s r k c d,
   exists s', perform true s r = (s', None) /\ k_tab s' = k_tab s /\ k_fs s' = k_fs s.
 Proof. exact noclobber_lemma. Qed.
 
+(* noclobber through symbolic links (model Symlink.v: the algorithm of
+   open_file_noclobber over POSIX open(2) with links; not tied to the code on
+   the simulated OS, which does not follow links - C19 finding F41): a name that
+   resolves, through any chain of links, to an existing regular file is refused *)
+Theorem link_noclobber_refuses_regular : forall fuel f name final,
+  lresolve fuel f name = Some (Found final LReg) -> noclobber_open fuel f name = Refused.
+Proof. exact link_noclobber_regular_lemma. Qed.
+
+(* ... a FIFO or a device behind links is opened as it is ... *)
+Theorem link_noclobber_opens_fifo_and_device : forall fuel f name final n,
+  lresolve fuel f name = Some (Found final n) -> n = LFifo \/ n = LDev ->
+  noclobber_open fuel f name = Opened n.
+Proof. exact link_noclobber_special_lemma. Qed.
+
+(* ... a missing name is created; a directory, a dangling link and a cycle of
+   links are refused *)
+Theorem link_noclobber_other_cases : forall fuel f name,
+  (f name = None -> noclobber_open fuel f name = Created)
+  /\ (forall final, lresolve fuel f name = Some (Found final LDir) -> noclobber_open fuel f name = Refused)
+  /\ (lresolve fuel f name = Some Dangling -> noclobber_open fuel f name = Refused)
+  /\ (lresolve fuel f name = Some Loop -> noclobber_open fuel f name = Refused).
+Proof. exact link_noclobber_other_lemma. Qed.
+
+(* examining the name (lstat) instead of the opened file is wrong: a link to a
+   regular file would be overwritten *)
+Theorem link_noclobber_lstat_variant_refuted :
+  exists fuel f name final,
+    lresolve fuel f name = Some (Found final LReg)
+    /\ noclobber_open fuel f name = Refused
+    /\ noclobber_open_lstat fuel f name = Opened LReg.
+Proof. exact link_noclobber_lstat_lemma. Qed.
+
 (* -- the shell's own descriptors --------------------------------------------------------- *)
 
 Theorem internal_fds_ge_10_cloexec : forall nc s rs s' stack ok,
@@ -240,6 +272,7 @@ Proof. exact ProofsSpec.oracle_restored_sound. Qed.
 
 Theorem oracle_internal_sound : forall nc s c s' si ex,
   sorted (k_tab s) -> below_limit (k_lim s) (k_tab s) ->
+  c_kind c <> KAsync ->
   run_cmd nc s c = (s', Some si, ex) ->
   internal_ok (targets (c_redirs c)) (k_tab s) (k_tab si) = true.
 Proof. exact ProofsSpec.oracle_internal_sound. Qed.
@@ -267,6 +300,10 @@ Print Assumptions undo_restores_needs_limit_refuted.
 Print Assumptions redirs_applied_in_order.
 Print Assumptions redirs_succeed_when_unconstrained.
 Print Assumptions noclobber_refuses_existing_regular.
+Print Assumptions link_noclobber_refuses_regular.
+Print Assumptions link_noclobber_opens_fifo_and_device.
+Print Assumptions link_noclobber_other_cases.
+Print Assumptions link_noclobber_lstat_variant_refuted.
 Print Assumptions internal_fds_ge_10_cloexec.
 Print Assumptions saved_fds_intact.
 Print Assumptions saved_fd_never_target.
